@@ -116,6 +116,7 @@ impl LoadBalancer {
       if !self.state.lock().peers.is_empty() {
         return Ok(());
       }
+      verif_point!("wait_for_connection:checked_empty");
       notify.notified().await;
     }
   }
